@@ -113,6 +113,18 @@ CHECKS = {
   "technique": "Lean 4 executable model + differential correspondence per emitted datagram + wire-level oracle; theorems in progress",
   "design_ref": "DESIGN.md section 6 / C12",
  },
+ "C11": {
+  "text": "Executable Lean models of both half connections (sync-frame logic, frame-ack queue resynchronisation, packet-receiver resynchronisation, window arithmetic, TFRC sender) run against two real HalfConnections: every frame and delivery compared. Scenarios: warm-up, window filling (bursts beyond packet window, frame window and the peer's receive allocation, all modes), a blackout of one or both directions of 5 ticks .. tens of minutes positioned anywhere, optional order-of-magnitude change of latency and/or step cadence, then loss-free operation driven by step()/flush() only. Oracle on the implementation: quiescence is reached; every Reliable packet is delivered; probe packets of the Unreliable, Persistent and Reliable modes submitted after the fault (on used and fresh channels) are delivered; a TimeSensitive probe submitted at quiescence is delivered; a fresh 58 kB backlog drains in less time than the rate floor would need. Found (with C13/C14) and repaired F12 (feedback starvation pinned the sender at the floor); reverting that repair is caught by this check.",
+  "note": "Partial: liveness is not a theorem (would need a fairness hypothesis on the network and the real-valued rate dynamics); it is established on every generated schedule, with the safety invariants it relies on proved under C15/C14/C06/C12. Trusted: harness/driver, simulated network.",
+  "technique": "Lean 4 executable model + differential correspondence + recovery/throughput oracle on blackout schedules",
+  "design_ref": "DESIGN.md section 6 / C11",
+ },
+ "C19": {
+  "text": "Lean theorems on the allocator's view of the one hand-built heap object (FragmentBuffer new/finalize): C19_finalize_layout (for every fragment count and every history of writes — any order, any repetition — the box handed to the application is dropped with exactly the size and alignment of its block, and holds total_size bytes), C19_wf_writes (total_size never exceeds the buffer), C19_raw_mismatch + witness (the re-boxing the code used to have breaks the contract exactly when the length is not the full buffer size: defect F11, repaired). Tied to the code by a checking global allocator in the harness (layout recorded at alloc, compared at every dealloc/realloc; static table, no allocation of its own): sessions of half connections and of real Client/Server endpoints with all size classes, cut off at arbitrary points, are run three times in one process; the allocator's verdict (mismatch count, growth of live bytes between identical sessions after every endpoint was dropped) is compared with the model's ledger and must be 0 / 0.",
+  "note": "Partial: `unsafe impl Send/Sync` is not expressible in an executable model (not decided); absence of leaks through the Rc/Weak graph is established on the generated sessions, not as a theorem. Trusted: Rust's own pairing of alloc/dealloc in safe code, std containers, harness/src/heap.rs.",
+  "technique": "Lean 4 proof on a ledger model of the unsafe re-boxing + checking global allocator on the implementation (differential: model ledger vs allocator verdict)",
+  "design_ref": "DESIGN.md section 6 / C19",
+ },
 }
 
 NOT_YET = "check not built yet (work in progress; see DESIGN.md section 11 for the order)"
